@@ -220,6 +220,11 @@ func Check(cfg *Config) int {
 					case "ok", "path-end-panic":
 						r.Validated++
 					case "assume-false":
+						if len(o.Known) > 0 {
+							// the run ended in a recorded known finding
+							r.Validated++
+							break
+						}
 						r.Divergent = append(r.Divergent, fmt.Sprintf("witness %d: native run rejects the assumptions the solver model satisfies", i))
 					default:
 						// a witness of a reachable point may legitimately lie on a path that later violates
